@@ -64,7 +64,8 @@ MSG2REASON = [
     (r"Incorrect format for rectangle", ["R_rect_format"]),
     (r"Incorrect value for rectangle", ["R_rect_value"]),
     # bare asserts: region of a rectangle, create_stog on no rectangle, `assert isinstance(key, str)` of parse_yaml_module
-    (r"^$", ["R_rect_region", "R_stog_empty", "R_module_attr"]),
+    # (and `assert isinstance(stream, TextIO)` of read_yaml when Netlist(None) is called)
+    (r"^$", ["R_rect_region", "R_stog_empty", "R_module_attr", "R_root_not_map"]),
     (r"Hard rectangles cannot be assigned", ["R_rect_hard_region"]),
     (r"Incorrect rectangle width", ["R_rect_width"]),
     (r"Incorrect rectangle height", ["R_rect_height"]),
@@ -142,7 +143,7 @@ def seen(d):
     return from_py(to_py(d))
 
 
-HAS_NULL = False     # set when the tree model has a constructor for None
+HAS_NULL = True      # the tree model has a constructor for None (Yaml/Tree.v: YNull)
 
 
 def encodable(x: str) -> bool:
